@@ -310,4 +310,63 @@ theorem sendrqPlace_probe_only_zero (w : World) (si o : Nat) (s : Server) (hss :
 /-- non-vacuity: a table with identifiers 1 and 2 taken; a request is placed at 3 -/
 example : True := trivial
 
+/-! ### giving a request up -/
+
+/-- emptying slot `i` of server `si` leaves every other identifier, and every other server, as it was -/
+theorem occ_updSrv_slot_other (w : World) (si i sj j : Nat) (hne : sj ≠ si ∨ j ≠ i) :
+    occ (updSrv w si fun s => { s with slots := s.slots.set i {} }) sj j = occ w sj j := by
+  unfold occ
+  by_cases h : si = sj
+  · subst h
+    cases hs : getSrv w si with
+    | none => rw [getSrv_updSrv_none w si _ hs, hs]
+    | some s =>
+      rw [getSrv_updSrv_same w si _ s hs]
+      have hji : i ≠ j := by
+        cases hne with
+        | inl h => exact absurd rfl h
+        | inr h => exact fun e => h e.symm
+      simp only [Option.bind]
+      rw [slotOf_set_other s i j {} hji]
+  · rw [getSrv_updSrv_other w si sj _ h]
+
+
+/-- **C11 (cancelled by its own client only).** giving up a request that was never queued for a server - held back by loop
+    prevention, say: it stays in its client's duplicate cache - releases no identifier at any server, whoever holds identifier 0
+    there -/
+theorem cancel_unqueued_touches_no_server (w : World) (ci i o : Nat) (c : Client) (r : Rq)
+    (hc : getCli w ci = some c) (hcache : c.cache.getD i none = some o) (hr : getRq w o = some r) (hto : r.to = none) :
+    (removeclientrq w ci i).servers = w.servers := by
+  unfold removeclientrq
+  simp only [hc, hcache]
+  rw [freerq_servers, updCli_servers]
+  unfold cancelOutstanding
+  simp only [hr, hto]
+
+/-- … and giving up one that IS queued releases exactly the identifier it holds itself: every other identifier of that server, and
+    every other server, keep what they hold -/
+theorem cancel_releases_only_its_own (w : World) (ci i o si : Nat) (c : Client) (r : Rq) (s : Server)
+    (hc : getCli w ci = some c) (hcache : c.cache.getD i none = some o) (hr : getRq w o = some r)
+    (hto : r.to = some si) (hs : getSrv w si = some s) (sj j : Nat) (hne : sj ≠ si ∨ j ≠ r.newid) :
+    occ (removeclientrq w ci i) sj j = occ w sj j := by
+  unfold removeclientrq
+  simp only [hc, hcache]
+  rw [occ_of_servers_eq _ _ (freerq_servers _ _), occ_of_servers_eq _ _ (updCli_servers _ _ _)]
+  unfold cancelOutstanding
+  simp only [hr, hto, hs]
+  split
+  · unfold freerqoutdata
+    simp only [hs]
+    cases hsl : (slotOf s r.newid).rq with
+    | none =>
+      simp only
+      exact occ_updSrv_slot_other w si r.newid sj j hne
+    | some o' =>
+      simp only
+      rw [occ_updSrv_slot_other _ si r.newid sj j hne]
+      have hsv : (freerq (updRq w o' fun r => { r with buf := none, to := none }) o').servers = w.servers := by
+        rw [freerq_servers]; rfl
+      exact occ_of_servers_eq _ _ hsv sj j
+  · rfl
+
 end Rsp.Props.C11
